@@ -610,6 +610,10 @@ def generate_all(repo):
     return {'CacheKey.v': cache_key(repo), 'ModeCtx.v': mode_ctx(mods['abelian_core'])}
 
 
+def generate_each(repo):
+    return {'CacheKey.v': lambda: cache_key(repo), 'ModeCtx.v': lambda: mode_ctx(modules(repo)['abelian_core'])}
+
+
 if __name__ == '__main__':
     repo = os.environ.get('SYMMRAY_REPO', '/repo')
     for k, v in generate_all(repo).items():
